@@ -388,6 +388,11 @@ func c05Unit(c *RunCtx, unit int) {
 			t := live[0]
 			c.Stats.Count("tokens:" + kind)
 			newpw := fmt.Sprintf("Recov3red!%d", r.Intn(1e6))
+			if kind == "recover" && (unit+ai)%4 == 0 && len(ac.Pw) >= 8 {
+				// the owner "resets" to the password already on file: the link is used up all the same
+				newpw = ac.Pw
+				c.Stats.Count("recovery-to-the-current-password")
+			}
 			// superseded tokens of this account must be dead
 			for _, d := range s.Tokens(kind, ac.PID, sim.Dead) {
 				step(litTok(kind, r.Intn(2), ai, d.Token, "superseded", newpw))
@@ -476,9 +481,9 @@ func init() {
 		Units: func(t string) int { return tierN(t, 48, 2000) },
 		Run:   c05Unit,
 		Floors: func(t string) map[string]int {
-			return map[string]int{"accepted:confirm": 30, "accepted:recover": 10, "rejected:recover:expired": 5, "rejected:recover:weak-password": 20,
+			return map[string]int{"recovery-to-the-current-password": 10, "accepted:confirm": 30, "accepted:recover": 10, "rejected:recover:expired": 5, "rejected:recover:weak-password": 20,
 				"rejected:confirm:used": 30, "rejected:recover:used": 10, "rejected:confirm:superseded": 5, "submitted:confirm:bitflip": 10000, "submitted:recover:bitflip": 10000}
 		},
-		Assumptions: []string{"token equality is equality of the bytes the stdlib base64 URL decoder yields (it ignores CR/LF and trailing bits)", "recovery exactly at the expiry instant is unspecified and not judged"},
+		Assumptions: []string{"token equality is equality of the bytes the stdlib base64 URL decoder yields (it ignores CR/LF and trailing bits)", "recovery exactly at the expiry instant is unspecified and not judged", "in a quarter of the recoveries the owner resets to the password already on file"},
 	})
 }
